@@ -182,7 +182,10 @@ impl Lexicon {
                     );
                     return Err(VibratoError::invalid_format(name, msg));
                 }
-                let feature = std::str::from_utf8(&features_bytes[..features_len - 1])?;
+                // `features_len` counts the record terminator, which is absent when the input
+                // ends right after the comma that follows the cost (an empty feature).
+                let feature =
+                    std::str::from_utf8(&features_bytes[..features_len.saturating_sub(1)])?;
                 if surface.is_empty() {
                     eprintln!(
                         "Skipped an empty surface, {:?}",
